@@ -45,9 +45,10 @@ Definition op_of (s : sx) : option op :=
   | SList [SInt 7%Z] => Some OLetShut
   | _ => None
   end.
-(* a nil Runnable has no body: the harness cannot see it start or end *)
+(* a nil Runnable (3, 4) and a Task without an action (5, Run() returns nil) have no body: the harness
+   cannot see them start or end *)
 Definition invisible_of (s : sx) : bool :=
-  match s with SList [SInt o; _] => (Z.eqb o 3 || Z.eqb o 4)%bool | _ => false end.
+  match s with SList [SInt o; _] => (Z.eqb o 3 || Z.eqb o 4 || Z.eqb o 5)%bool | _ => false end.
 
 Definition kind_of (s : sx) : option (outcome * bool) :=
   match s with
